@@ -26,6 +26,19 @@ from harness import common  # noqa: E402
 from harness.common import Ctx, write_json_atomic, jsonable, case_hash  # noqa: E402
 
 
+def _git_head(d):
+    """commit the tree is at (+ '-dirty' when tracked files differ from it)"""
+    try:
+        h = common.subprocess.run(["git", "-C", d, "rev-parse", "--short", "HEAD"], capture_output=True, text=True,
+                                  timeout=20).stdout.strip()
+        dirty = common.subprocess.run(["git", "-C", d, "status", "--porcelain", "--untracked-files=no", "--", ".",
+                                       ":!evidence", ":!lean/Audit"],        # rewritten by the checks themselves
+                                      capture_output=True, text=True, timeout=20).stdout.strip()
+        return h + ("-dirty" if dirty else "")
+    except Exception:      # noqa: BLE001 - informational only
+        return "unknown"
+
+
 def main(argv=None):
     ap = argparse.ArgumentParser()
     ap.add_argument("pid")
@@ -187,6 +200,8 @@ def pipeline(ctx, mod, args):
             "nonvacuity_examples": examples,
             "evaluations": evaluations,
             "distinct_nontrivial": len(ctx.nontrivial),
+            "distinct_nontrivial_capped": len(ctx.nontrivial) >= 2_000_000,   # the counter stops at two million
+            "repo": REPO, "repo_head": _git_head(REPO), "verif_head": _git_head(VERIF),
             "rule": getattr(mod, "RULE", ""),
             "samples": ctx.samples or ["(no sample recorded)"],
             "streams": ctx.streams,
